@@ -23,10 +23,11 @@ func c06Opts() (o specOpts, msg verif.Opts) {
 		o = specOpts{actionMode: 1, noNilBranches: true, branches: 1, patMode: 1, withGuards: true, fixedTarget: true, fixedErr: true,
 			actKinds: []int{aSet, aFail}, grdKinds: []int{aIdent, aNilBs, aFail}, pooled: true, small: true, noLog: true}
 		if verif.Tier() > 0 {
+			// (two branches with every action and guard behaviour and free error settings did not finish in
+			// 30 minutes; the thorough tier widens branches and error settings and keeps the behaviours of the
+			// quick tier - slice 0 covers every action behaviour)
 			o.branches = 2
 			o.fixedErr = false
-			o.actKinds = kindsAction
-			o.grdKinds = kindsGuard
 		}
 	}
 	return o, msg
